@@ -257,9 +257,10 @@ def run_vh_parallel(arg_lists, timeout=3600, binary=None):
             except (subprocess.TimeoutExpired, json.JSONDecodeError):
                 again = None
             if again is not None:
-                if "hang" not in again:
-                    log(f"[vh] a worker reported a stall that did not repeat when run alone: {' '.join(args)[:120]}")
                 out[i] = again
+                if "hang" in again:
+                    break          # confirmed on an idle machine: the remaining reports stand as they are
+                log(f"[vh] a worker reported a stall that did not repeat when run alone: {' '.join(args)[:120]}")
     return out
 
 
